@@ -566,7 +566,8 @@ func lockCallKind(i ssa.Instruction) (path string, kind string) {
 // heldAt: which mutexes (by access path) are held at instruction at (must-hold, intraprocedural).
 // A lock L is held at I if an acquisition dominates I and no non-deferred release of the same
 // mutex can run between the acquisition and I.
-func heldAt(at ssa.Instruction, write bool) []string {
+// (heldAt itself, below, adds locks taken and released through wrapper methods.)
+func heldAtDirect(at ssa.Instruction, write bool) []string {
 	f := at.Parent()
 	var held []string
 	eachInstr(f, func(l ssa.Instruction) {
@@ -594,6 +595,10 @@ func heldAt(at ssa.Instruction, write bool) []string {
 	})
 	return held
 }
+
+// heldAt: the locks held at `at` — acquired directly or by calling a wrapper that takes the lock on all its paths and
+// never releases it, and not released (directly or through a releasing wrapper) on the way.
+func heldAt(at ssa.Instruction, write bool) []string { return c06heldAt(at, write) }
 
 // reachAvoidingInstr: is there a path that starts right after a and executes b
 // without executing `avoid` in between?
